@@ -336,6 +336,11 @@ func (r *receiver) run(ctx context.Context) error {
 	})
 
 	if err := g.Wait(); err != nil {
+		// the writers of the files that were in flight run in a group of
+		// their own; they are cancelled with ctx, but have to be gone before
+		// the stream is handed back to the caller: one of them may be about
+		// to send its request
+		dw.eg.Wait()
 		return err
 	}
 
